@@ -46,7 +46,7 @@ def main():
             if m.get("expect", "") == "":
                 ok = r.returncode == 0 and not viol
             else:
-                ok = r.returncode == 1 and any(re.sub(r'[^A-Za-z0-9.]', '_', m["expect"]) in v for v in viol)
+                ok = r.returncode == 1 and any(re.sub(r'[^A-Za-z0-9.\-]', '_', m["expect"]) in v for v in viol)
             tag = "ok  " if ok else "FAIL"
             print(f"{tag} {m['prop']} {m['name']}: exit={r.returncode} " + ("; ".join(v.split('replay=')[1].split('/')[-1] for v in viol)[:300]))
             if not ok:
